@@ -13,10 +13,13 @@
           against the recursive named type node = dict{Next : optional node}; the harness runs it in a
           256 KiB-stack thread.  `bigchain` (n = 10^5) is too large for the list-based model memo: the model
           prints the closed form 2n+1 (lin) / 2n+3 (cyc) that the `chain` cases confirm for small n.
+  `seq ...` : a SEQUENCE of checks on one type-check context and one object context: format, model and judge are in
+          Driver/C09Seq.lean ("returns the same verdict every time it is run": no dependence on earlier checks).
 -/
 import Driver.Common
 import Driver.TypeCheckCodec
 import Driver.C08
+import Driver.C09Seq
 import Parsley.Spec.WorkBound
 namespace Driver.C09
 open Parsley Parsley.TC Driver Driver.TCCodec
@@ -69,6 +72,7 @@ def parse (line : String) : Option (Case × Option String) :=
   | _ => (parseCase line).map fun c => (c, none)
 
 def model (line : String) : String :=
+  if C09Seq.isSeq line then C09Seq.model line else
   match parse line with
   | none => "bad-case"
   | some (_, some out) => out
@@ -83,6 +87,7 @@ def field (impl : String) (key : String) : Option String :=
   (words impl).findSome? fun w => if w.startsWith key then some ((w.drop key.length).toString) else none
 
 def judge (line impl : String) : String :=
+  if C09Seq.isSeq line then C09Seq.judge line impl else
   match parse line with
   | none => "skip"
   | some (c, big) =>
@@ -132,9 +137,12 @@ def gen (seed n : Nat) (tier : String) (emit : String → IO Unit) : IO Unit := 
     let (l, r') := genCycDisj "c09" r
     r := r'
     emit l
+  -- sequences of 2..4 checks on ONE type-check context and one object context (Driver/C09Seq.lean)
+  C09Seq.gen seed n tier emit
 
 /-- non-trivial: the graph has a reference cycle or the specification is recursive (uses a name) -/
 def nontrivial (line : String) : Bool :=
+  if C09Seq.isSeq line then C09Seq.nontrivial line else
   match parse line with
   | none => false
   | some (c, big) =>
